@@ -117,7 +117,16 @@ class RateLimitedEntity(Entity):
         self.received_times.append(now)
 
         if self._policy.try_acquire(now):
-            return self._forward(event, now)
+            if self._queue.is_empty():
+                return self._forward(event, now)
+            # Older requests are waiting: the capacity goes to the head of the
+            # queue and the new arrival takes its place at the tail (FIFO).
+            oldest = self._queue.pop()
+            result = self._forward(oldest, now)
+            self._queue.push(event)
+            self._queued += 1
+            result.extend(self._ensure_poll_scheduled(now))
+            return result
 
         # Queue the event
         if self._queue.push(event):
